@@ -522,6 +522,41 @@ def table(name, rows, comment=''):
     return f"Definition {name} : list (string * Z) := [{body}].{comment}"
 
 
+def loop_safety_passes(tree):
+    """WhileLoopSafety.safety_condition: how many times it answers True for max_iterations = m.
+    Recognised shapes (fail-closed otherwise):
+       if self.counter >= self.max_iterations: warn; return False  /  self.counter += 1  /  return True      -> m
+       self.counter += 1  /  if self.counter >= self.max_iterations: warn; return False  /  return True      -> m - 1
+    Returned as the offset k such that the number of True answers is m - k."""
+    cls = next((n for n in tree.body if isinstance(n, ast.ClassDef) and n.name == 'WhileLoopSafety'), None)
+    if cls is None:
+        raise TranslateError("class WhileLoopSafety not found")
+    fn = next((n for n in cls.body if isinstance(n, ast.FunctionDef) and n.name == 'safety_condition'), None)
+    init = next((n for n in cls.body if isinstance(n, ast.FunctionDef) and n.name == '__init__'), None)
+    if fn is None or init is None:
+        raise TranslateError("WhileLoopSafety.safety_condition / __init__ not found")
+    if 'self.counter = 0' not in [ast.unparse(x) for x in init.body]:
+        raise TranslateError("WhileLoopSafety.__init__: counter does not start at 0")
+    body = strip_doc(fn.body)
+    kinds = []
+    for st in body:
+        src = ast.unparse(st)
+        if src == 'self.counter += 1':
+            kinds.append('inc')
+        elif isinstance(st, ast.If) and ast.unparse(st.test) == 'self.counter >= self.max_iterations' and not st.orelse \
+                and isinstance(st.body[-1], ast.Return) and ast.unparse(st.body[-1]) == 'return False':
+            kinds.append('check')
+        elif src == 'return True':
+            kinds.append('true')
+        else:
+            raise TranslateError("WhileLoopSafety.safety_condition: unrecognised statement: " + src[:80])
+    if kinds == ['check', 'inc', 'true']:
+        return 0
+    if kinds == ['inc', 'check', 'true']:
+        return 1
+    raise TranslateError(f"WhileLoopSafety.safety_condition: unrecognised shape {kinds}")
+
+
 def generate(repo):
     t_graph = parse_file(f"{repo}/{SRC_GRAPH}")
     t_op = parse_file(f"{repo}/{SRC_OP}")
@@ -538,7 +573,9 @@ def generate(repo):
            "Open Scope string_scope.", ""]
     # (a)
     out += ["(* (a) graph_traversal/intrf_graph_structure.py *)",
-            f"Definition MAX_GRAPH_DEPTH : Z := {max_graph_depth(t_graph)}.", ""]
+            f"Definition MAX_GRAPH_DEPTH : Z := {max_graph_depth(t_graph)}.",
+            "(* utilities/custom_context_managers.py: WhileLoopSafety(max_iterations = m).safety_condition() answers True this many times *)",
+            f"Definition loop_safety_passes (m : Z) : Z := m - {loop_safety_passes(t_ctx)}.", ""]
     # (b)
     out += ["(* (b) which get_start_time methods carry @lru_cache *)",
             f"Definition relation_link_memoised : bool := {cbool(memoised(t_op, 'RelationLink'))}.",
